@@ -67,7 +67,7 @@ Generic function to clean input in preparation for tabular output
 func CleanInput(input string, separator string) string {
 
 	// Remove line breaks
-	re := regexp.MustCompile(`\r?\n`)
+	re := regexp.MustCompile(`\r\n|\r|\n`)
 	input = re.ReplaceAllString(input, " ")
 	// Remove separator symbol used in output
 	re2 := regexp.MustCompile(`\` + separator)
